@@ -312,6 +312,9 @@ func genWatchShaped(r *sx.Rng) spec {
 	for k := r.Intn(3); k > 0; k-- {
 		s.keys = append(s.keys, safeStr(r, 1+r.Intn(8)))
 	}
+	if r.Chance(1, 10) {
+		s.keys = []string{""}
+	}
 	return s
 }
 
@@ -393,6 +396,9 @@ func genSpec(r *sx.Rng) spec {
 	}
 	if r.Chance(1, 30) {
 		s.keys = []string{safeStr(r, 250+r.Intn(10))}
+	}
+	if r.Chance(1, 40) {
+		s.keys = sx.Pick(r, [][]string{{""}, {"", ""}, {"a", ""}})
 	}
 	s.inDomain = true
 	return s
@@ -512,6 +518,9 @@ func modeBuild(seed uint64, n int, out *sx.Out) {
 			var keys []string
 			for k := r.Intn(3); k > 0; k-- {
 				keys = append(keys, safeStr(r, 1+r.Intn(10)))
+			}
+			if r.Chance(1, 12) {
+				keys = []string{""}
 			}
 			parts := []string{"-w", path}
 			if perms != "" {
